@@ -269,6 +269,28 @@ SPECIAL = [
     'C', 'CC', 'C=C', 'C#C', 'CCCCCCCCCCCC', 'C1CCCCCCCCCCC1', 'OCC(O)CO', 'C(C(C)C)(C(C)C)C(C)C', 'CC(C)CC(C)C', 'B1OB(O)OB1',
     '[O-][N+](=O)c1ccccc1', 'CS(=O)(=O)O', 'OP(O)(O)=O', '[NH4+].[OH-]', 'C[Si](C)(C)C', 'C~C', 'C[Mg]Br', '[Li]CCCC',
 ]
+# long unbranched / periodically repeating segments: the refinement needs many rounds (up to len - 1) before the middle atoms
+# are told apart; every atom is constitutionally distinct or has exactly one mirror partner
+LONG = [
+    'C' * 35 + 'O',                                  # hexatriacontan-1-ol
+    'C' * 39 + 'C(=O)O',                             # tetracontanoic acid
+    'Br' + 'C' * 40 + 'Cl',
+    'NCC(=O)' + 'NCC(=O)' * 12 + 'O',                # Gly13
+    'C1' + 'C' * 39 + 'O1',                          # 41-membered macrocyclic ether
+    'C1' + 'C' * 20 + 'N' + 'C' * 17 + 'O1',         # macrocycle with two different hetero atoms
+    'CO' + 'CCO' * 15 + 'CC',                        # oligo(ethylene glycol) with different ends
+    'CC(C)' + 'C' * 40 + 'N',
+    'C' * 45,                                        # symmetric chain (mirror partners only)
+    'OC(=O)' + 'C' * 36 + 'C(=O)O',                  # symmetric diacid
+    'c1ccccc1' + 'C' * 38 + 'c1ccncc1',
+    'F' + 'C=C' * 20 + 'Cl',                         # conjugated polyene, unlabelled double bonds
+]
+# stereo-labelled allenes: tetra-substituted (two non-hydrogen substituents on BOTH terminals), tri-substituted, explicit H
+ALLENES = [
+    'CC(F)=[C@]=C(Cl)Br', 'CC(F)=[C@@]=C(Cl)Br', 'BrC(Cl)=[C@]=C(F)C', 'FC(C)=[C@]=C(Br)Cl', 'NC(O)=[C@]=C(Cl)C', 'CC(N)=[C@@]=C(O)CC',
+    'CC(F)=[C@]=CCl', 'CC(F)=[C@@]=CCl', 'ClC=[C@]=C(F)C', 'CC(F)=[C@]=C([H])Cl', 'CC(F)=[C@]=C(Cl)[H]', 'CC([H])=[C@]=C([H])Cl',
+    'CCC(C)=[C@]=C(C)CO', 'CC(F)=[C@]=C1CCC(C)CC1', 'C1CCCCC1C(C)=[C@]=C(F)Cl', 'CC(F)=C=C=[C@]=C=C(Cl)Br', 'OC(C)=[C@]=C(N)C(=O)O',
+]
 # members of the two documented gap classes (the oracle must recognise them; whatever the code does there is not judged)
 GAP_EXAMPLES = ['C[C@H]1CC[C@@H](C)CC1', 'C[C@H]1CC[C@H](C)CC1', 'O[C@H]1CC[C@@H](N)CC1', 'C[C@H]1C[C@@H](C)C1',
                 'C12C3C1C1C2C31', 'C12C3C4C1C5C2C3C45', 'CC12C3C1C1C2C31']
@@ -553,6 +575,69 @@ def small_molecules(rng, count):
     return out
 
 
+def search_allenes(ck):
+    """spellings aC(b)=[C@]=C(c)d of an allene denote the same configuration exactly when their tetrahedral analogues
+    a[C@](b)(c)d do (OpenSMILES extended tetrahedral rule); RDKit judges the analogues and never sees an allene.  All spellings of
+    one configuration must give ONE canonical string, equal and hash-equal molecules; the two configurations different strings;
+    the library's random-order output must read back as the same molecule (oracle after harness/checks/C12.py:search_allenes)"""
+    from chython import smiles
+    from rdkit import Chem
+    for subs in (('C', 'F', 'Cl', 'Br'), ('C', 'F', 'C', 'Cl'), ('N', 'O', 'Cl', 'C'), ('CC', 'C', 'O', 'N'), ('C', 'F', '[H]', 'Cl'),
+                 ('C', '[H]', '[H]', 'Cl')):
+        groups = {}
+        left, right = subs[:2], subs[2:]
+        for lft in itertools.permutations(left):
+            for rgt in itertools.permutations(right):
+                for mk in ('@', '@@'):
+                    for flip in (False, True):      # written from either end
+                        a, bb, c, d = (lft + rgt) if not flip else (rgt + lft)
+                        if a == '[H]':
+                            continue
+                        al = f'{a}C({bb})=[C{mk}]=C({c}){d}'
+                        rd = Chem.MolFromSmiles(f'{a}[C{mk}]({bb})({c}){d}')
+                        if rd is not None:
+                            groups.setdefault(Chem.MolToSmiles(rd), []).append(al)
+        if len(groups) != 2:
+            continue    # the analogue is not a stereocentre for RDKit: nothing to judge
+        canon = {}
+        for key, spellings in groups.items():
+            seen = {}
+            first = None
+            for al in spellings:
+                try:
+                    m = smiles(al)
+                except Exception as e:
+                    ck.counterexample(f'allene-raises:{al}', f'reading a stereo allene raises {type(e).__name__}', {'smiles': al}, repr(e),
+                                      'a molecule', 'OpenSMILES')
+                    continue
+                ck.case(('search-allene', al))
+                ck.count('search:allene-spellings')
+                seen.setdefault(str(m), []).append(al)
+                if first is None:
+                    first = (al, m)
+                elif (m == first[1]) != (str(m) == str(first[1])) or (m == first[1] and hash(m) != hash(first[1])):
+                    ck.counterexample(f'eq-hash-incoherent:allene:{al}', '== / hash disagree with the canonical strings', {'a': first[0], 'b': al},
+                                      [str(first[1]), str(m)], 'coherent', 'definition of __eq__/__hash__')
+                random.seed(len(al) * 7919 + len(seen))
+                back = smiles(format(m, 'r'))
+                if str(back) != str(m) or back != m:
+                    ck.counterexample(f'allene-respell:{al}', 'random-order SMILES of a stereo allene reads back as a different molecule',
+                                      {'smiles': al}, str(back), str(m), 'the library reading its own random-order output',
+                                      replay_py=f"from chython import smiles; m=smiles({al!r}); print(m, smiles(format(m,'r')))")
+            if len(seen) > 1:
+                ex = [v[0] for v in seen.values()][:2]
+                ck.counterexample(f'allene-spellings:{ex[0]}', 'equivalent spellings of one allene configuration give different canonical '
+                                  'strings (equivalence judged by RDKit on the tetrahedral analogues)', {'spellings': ex}, sorted(seen),
+                                  'one string', 'OpenSMILES extended tetrahedral rule + RDKit',
+                                  replay_py=f"from chython import smiles; print(smiles({ex[0]!r}), smiles({ex[1]!r}))")
+            canon[key] = set(seen)
+        ks = list(canon)
+        if len(ks) == 2 and canon[ks[0]] & canon[ks[1]]:
+            ck.counterexample(f'allene-enantiomers:{"/".join(subs)}', 'the two configurations of an allene share a canonical string',
+                              {'substituents': subs}, sorted(canon[ks[0]] & canon[ks[1]]), 'different strings',
+                              'OpenSMILES extended tetrahedral rule + RDKit')
+
+
 def search(ck, seeds=None):
     rng = random.Random(f'{ck.seed}:c01-search')
     S = Searcher(ck)
@@ -562,6 +647,11 @@ def search(ck, seeds=None):
     st = corpus.sample(corpus.stereo_smiles(), 60 if quick else 600, ck.seed, 'c01s')
     for smi in (seeds or []) + SPECIAL + GAP_EXAMPLES + st + pool:
         S.one(smi, rng)
+    for smi in LONG:
+        S.one(smi, rng, n_renum=4, n_spell=3, n_rdkit=4)
+    for smi in ALLENES:
+        S.one(smi, rng, n_renum=4, n_spell=12, n_rdkit=1)
+    search_allenes(ck)
     # the oracle must recognise the documented gap members, and must not call ordinary molecules gaps
     from chython import smiles
     for smi in GAP_EXAMPLES:
@@ -856,7 +946,7 @@ def correspondence(ck):
     cases, meta = [], []
     suspects = []
     n_writer = 0
-    pool = SPECIAL + GAP_EXAMPLES + corpus.sample(corpus.lipo(), 110 if quick else 500, ck.seed, 'c01-corr')
+    pool = SPECIAL + GAP_EXAMPLES + LONG + ALLENES[:4] + corpus.sample(corpus.lipo(), 100 if quick else 500, ck.seed, 'c01-corr')
     mols = []
     for smi in pool:
         try:
@@ -910,7 +1000,7 @@ def correspondence(ck):
                     meta.append(('writer', how, smi, str(v)))
                     ck.case(('corr-wr', smi, how, tuple(order)), nontrivial=len(v) > 2)
                     ck.count('corr:writer-full')
-            ck.count(f'corr:mol:atoms<={min(60, -(-len(m) // 10) * 10)}')
+            ck.count(f'corr:mol:atoms<={min(90, -(-len(m) // 10) * 10)}')
             ck.count('corr:mol:classes-discrete' if len(set(m.atoms_order.values())) == len(m) else 'corr:mol:classes-tied')
     # the two hash models against the interpreter on random tuples (boundaries of the int hash included)
     edge = [0, 1, -1, -2, (1 << 61) - 1, (1 << 61) - 2, 1 << 61, -(1 << 61) + 1, -(1 << 61), (1 << 63) - 1, -(1 << 63), 1 << 63, 1 << 64, -(1 << 64) - 1]
@@ -967,7 +1057,8 @@ def run(ck):
         'round compared too) and with shuffled insertion order; random int tuples for the hash; non-trivial = result is Ok on more than '
         '2 atoms. search: each molecule renumbered x2, rebuilt through add_atom/add_bond/add_*_stereo in another order (Kekule form and '
         'after thiele), re-spelled by format(m,"r") x2 and by RDKit (aromatic and Kekule spelling, kekule+thiele on both sides) -> str, ==, '
-        'hash; atoms_order against an own exact colour refinement; non-trivial = more than one atom. Members of the documented gap classes '
+        'hash; long chains / macrocycles / oligomers (36-90 atoms) and stereo allenes (12 random spellings each, all spellings of one '
+        'configuration by the OpenSMILES extended-tetrahedral rule judged by RDKit on the tetrahedral analogue) as well; atoms_order against an own exact colour refinement; non-trivial = more than one atom. Members of the documented gap classes '
         '(own symmetry oracle) are judged on the stereo-free string only; the bond-order-tie class (annulenes with localised bonds, fixed by 2e3e6bb) is judged in full.')
     import time
     t0 = time.time()
